@@ -16,6 +16,12 @@ MAXKEY = 511                # lmdb max key size (asserted against env.max_key_si
 
 _state = {}
 
+# (sep, ionsep) configurations of the custom-separator kinds "<class>@<n>" (None = class default).  Separators whose UTF-8
+# length differs from their character count, multi-character ones, str and bytes (ionsep only: sep is joined with str parts).
+SEPCFG = [(None, "|"), (None, "\u00a7"), (None, "\u2192"), (None, "\U0001d11e"), (None, "::"), (None, "\u00a7\u2192"),
+          (None, b"|"), (None, "\u00a7".encode()), (None, "\u2192::".encode()),
+          ("\u00a7", None), ("\u2192", "\u00a7"), ("::", "\u2192"), ("\U0001d11e", "::"), ("\u00a7\u2192", b"||")]
+
 
 def hexw(i):
     return b"%032x" % i
@@ -32,7 +38,7 @@ def _root():
 
 
 def _cleanup():
-    for k in ("duror", "subery"):
+    for k in ("duror", "subery", "c24sub"):
         o = _state.pop(k, None)
         if o is not None:
             try:
@@ -78,9 +84,17 @@ def c24_subers():
             raise core.Infra(f"lmdb max key size {d.env.max_key_size()} != {MAXKEY}")
         _state["subers"] = dict(plain=during.Suber(db=d, subkey="p."),
                                 io=during.IoSuber(db=d, subkey="i."),
-                                ioset=during.IoSetSuber(db=d, subkey="s."),
-                                iox=during.IoSuber(db=d, subkey="ix.", ionsep="|"),
-                                iosetx=during.IoSetSuber(db=d, subkey="sx.", ionsep="|"))
+                                ioset=during.IoSetSuber(db=d, subkey="s."))
+        # custom separators: one sub-db per class, one Suber object per (class, configuration) on it
+        mk = dict(plain=(during.Suber, "px."), io=(during.IoSuber, "ix."), ioset=(during.IoSetSuber, "sx."))
+        for n, (sep, ionsep) in enumerate(SEPCFG):
+            for base, (cls, subkey) in mk.items():
+                kw = {}
+                if sep is not None:
+                    kw["sep"] = sep
+                if ionsep is not None and base != "plain":
+                    kw["ionsep"] = ionsep
+                _state["subers"][f"{base}@{n}"] = cls(db=d, subkey=subkey, **kw)
         # neighbours in the same environment that no case may ever touch
         sen = during.IoSuber(db=d, subkey="zz.")
         _drop(d.env, sen.sdb)
@@ -138,8 +152,7 @@ def c24_keys(ops):
 def c24_apply(sub, kind, op, j=0):
     try:
         name = op[0]
-        if kind in ("iox", "iosetx"):
-            kind = kind[:-1]
+        kind = kind.split("@")[0]
         if name not in TOPOPS and len(op) > 1:
             op = (name, kform(op[1], j, sub.sep)) + tuple(op[2:])
         _s = lambda b: vform(b, j)     # noqa: E731  (shadows the module-level str form on purpose)
@@ -235,6 +248,105 @@ def c24_run(case):
     return (tuple(steps), raw_items(d.env, sub.sdb))
 
 
+# ---------------------------------------------------------------------------
+# C24 over the library's own wiring: ONE Subery with its three subers, the same keys used in every store
+
+SUBSTORES = ("cans", "drqs", "dsqs")
+
+
+def c24_subery():
+    if "c24sub" not in _state or not _state["c24sub"].opened:
+        from hio.base import during
+        s = during.Subery(name="c24sub", headDirPath=_root(), reopen=True, temp=False, reuse=True)
+        if not s.opened:
+            raise core.Infra("cannot open lmdb scratch environment")
+        _state["c24sub"] = s
+    return _state["c24sub"]
+
+
+def _dser(sub, r):
+    """canonical form of a Dom-suber result: doms by serialisation"""
+    if r is None or isinstance(r, (bool, int)):
+        return r
+    if isinstance(r, (list, tuple)):
+        return tuple(_dser(sub, x) for x in r)
+    try:
+        return bytes(sub._ser(r))
+    except Exception:
+        return ("unexpected", type(r).__name__)
+
+
+def c24sub_apply(s, op):
+    store, name = op[0], op[1]
+    sub = getattr(s, store)
+    V = c23_val
+    try:
+        if store == "cans":
+            if name == "put":
+                return _dser(sub, sub.put(op[2], V(op[3])))
+            if name == "pin":
+                return _dser(sub, sub.pin(op[2], V(op[3])))
+            if name == "get":
+                return _dser(sub, sub.get(op[2]))
+            if name == "rem":
+                return _dser(sub, sub.rem(op[2]))
+            if name == "cnt":
+                return sub.cntAll()
+        else:
+            if name == "add":
+                return _dser(sub, sub.add(op[2], V(op[3])))
+            if name == "put":
+                return _dser(sub, sub.put(op[2], [V(i) for i in op[3]]))
+            if name == "pin":
+                return _dser(sub, sub.pin(op[2], [V(i) for i in op[3]]))
+            if name == "get":
+                return _dser(sub, sub.get(op[2]))
+            if name == "first":
+                return _dser(sub, sub.getFirst(op[2]))
+            if name == "last":
+                return _dser(sub, sub.getLast(op[2]))
+            if name == "pop":
+                return _dser(sub, sub.pop(op[2]))
+            if name == "rem":
+                return _dser(sub, sub.rem(op[2]))
+            if name == "cnt":
+                return _dser(sub, sub.cnt(op[2]))
+            if name == "remv" and store == "dsqs":
+                return _dser(sub, sub.rem(op[2], V(op[3])))
+    except core.Infra:
+        raise
+    except Exception as ex:
+        return classify(ex)
+    raise core.Infra(f"bad subery op {op!r}")
+
+
+def c24sub_keys(ops):
+    return tuple(sorted({op[2] for op in ops if len(op) > 2}))
+
+
+def c24sub_run(case):
+    _, ops = case
+    s = c24_subery()
+    for store in SUBSTORES:
+        _drop(s.env, getattr(s, store).sdb)
+    keys = c24sub_keys(ops)
+    steps = []
+    for op in ops:
+        res = c24sub_apply(s, op)
+        snap = []
+        for store in SUBSTORES:
+            sub = getattr(s, store)
+            row = []
+            for k in keys:
+                try:
+                    row.append(_dser(sub, sub.get(k)))
+                except Exception as ex:
+                    row.append(classify(ex))
+            snap.append(tuple(row))
+        steps.append((res, tuple(snap)))
+    return (tuple(steps), tuple(raw_items(s.env, getattr(s, store).sdb) for store in SUBSTORES))
+
+
 def f39_pairs(keys, nvals):
     """pairs (k, k') of keys such that entries of k' can sort between the first possible entry of k
     (ordinal 0) and an entry of k with an ordinal < nvals: k' = k ++ sep ++ r with
@@ -264,17 +376,47 @@ def c24_nvals(ops):
 # ---------------------------------------------------------------------------
 # C23: Durq / Dusq held in a Hold over a Subery, reopen between operations
 
+def _dom_classes():
+    """registered Dom classes of the harness: field-less markers (mutable and frozen) and classes whose instances are falsy"""
+    if "domcls" not in _state:
+        from dataclasses import dataclass
+        from hio.help import RegDom, IceRegDom
+        from hio.help.doming import registerify, namify
+
+        def hsh(self):
+            return hash((self.__class__.__name__,) + self._astuple())
+        if "VMarker" in RegDom._registry:        # module imported twice in one process
+            reg = {**RegDom._registry, **IceRegDom._registry}
+            _state["domcls"] = tuple(reg[n] for n in ("VMarker", "VIceMarker", "VFalsy", "VSized"))
+        else:
+            VMarker = namify(registerify(dataclass(type("VMarker", (RegDom,), {"__hash__": hsh, "__annotations__": {}}))))
+            VIceMarker = namify(registerify(dataclass(frozen=True)(type("VIceMarker", (IceRegDom,), {"__annotations__": {}}))))
+            VFalsy = namify(registerify(dataclass(type("VFalsy", (RegDom,), {"__hash__": hsh, "__bool__": lambda self: False,
+                                                                             "__annotations__": {"x": int}, "x": 0}))))
+            VSized = namify(registerify(dataclass(type("VSized", (RegDom,), {"__hash__": hsh, "__len__": lambda self: 0,
+                                                                             "__annotations__": {"x": int}, "x": 0}))))
+            _state["domcls"] = (VMarker, VIceMarker, VFalsy, VSized)
+    return _state["domcls"]
+
+
 def _vals():
     if "vals" not in _state:
         from hio.base.hier import Bag, IceBag
+        VMarker, VIceMarker, VFalsy, VSized = _dom_classes()
         _state["vals"] = [Bag(value=0), Bag(value=1), Bag(value=2), IceBag(value=1), Bag(value="a"),
                           # equal under == / hash to entry 1, different serialisations (F38):
-                          Bag(value=1.0), Bag(value=True)]
+                          Bag(value=1.0), Bag(value=True),
+                          # field-less marker doms (mutable, frozen) and an empty-string value: truthy today
+                          VMarker(), VIceMarker(), Bag(value=""),
+                          # doms that ARE falsy (class defines __bool__ / __len__): known finding C23-K3, oracle-only
+                          VFalsy(x=1), VSized(x=2)]
     return _state["vals"]
 
 
-NVALS = 7
+NVALS = 12
 CLEAN = (0, 1, 2, 3, 4)        # pairwise different under ==, pairwise different serialisations
+MARKERS = (7, 8, 9, 0, 1)      # field-less / empty-content values next to ordinary ones
+FALSY = (10, 11)
 
 
 INVALID = {-1: None, -2: "junk", -3: 7}      # arguments a Durq/Dusq must reject (push(None) is ignored) without any effect
@@ -292,6 +434,69 @@ def _scribble(v):
         v.value = "scribbled"
     except Exception:
         pass                      # frozen (IceBag) or not a dom
+
+
+class FakeHandle:
+    """pyscript.storage-like handle: local writes, committed on sync()"""
+    def __init__(self, backend, namespace):
+        self.backend = backend
+        self.namespace = namespace
+        self._local = dict(backend.persisted.get(namespace, {}))
+
+    def get(self, key, default=None):
+        return self._local.get(key, default)
+
+    def __getitem__(self, key):
+        return self._local[key]
+
+    def __setitem__(self, key, value):
+        self._local[key] = value
+
+    async def sync(self):
+        self.backend.persisted[self.namespace] = dict(self._local)
+
+
+class FakeBackend:
+    def __init__(self):
+        self.persisted = {}
+
+    async def open(self, namespace):
+        return FakeHandle(self, namespace)
+
+
+class WebStore:
+    """the browser sibling of Subery: a WebDuror over a scripted in-memory pyscript.storage with the same two subers"""
+    STORES = (b"drqs.", b"dsqs.")
+
+    def __init__(self, backend, duror=None):
+        import asyncio
+        from hio.base import WebDuror
+        self.backend = backend
+        self.db = duror if duror is not None else WebDuror(name="c23web", storageOpener=backend.open)
+        if not asyncio.run(self.db.reopen(stores=self.STORES)):
+            raise core.Infra("cannot open WebDuror")
+        self.wire()
+
+    def wire(self):
+        from hio.base import during
+        self.drqs = during.DomIoSuber(db=self.db, subkey="drqs.")
+        self.dsqs = during.DomIoSetSuber(db=self.db, subkey="dsqs.")
+        self.opened = self.db.opened
+        self.env = None
+
+    def close(self, how=0):
+        """the three ways a session ends: await aclose(), flush() then close(), plain close()"""
+        import asyncio
+        if how % 3 == 0:
+            asyncio.run(self.db.aclose())
+        elif how % 3 == 1:
+            asyncio.run(self.db.flush())
+            self.db.close()
+        else:
+            self.db.close()
+
+    def raw(self, sub):
+        return tuple((bytes(k), bytes(v)) for k, v in sub.sdb.items.items())
 
 
 def c23_open():
@@ -324,7 +529,12 @@ def _mk(kind, pre=None):
     """a fresh empty queue object, or one PRELOADED through its constructor (Durq(vals) / Dusq(vals))"""
     from hio.base.hier import Durq, Dusq
     cls = Durq if kind == "durq" else Dusq
-    return cls() if pre is None else cls([c23_val(i) for i in pre])     # pre == "keep" is handled by the caller
+    if pre is None:
+        return cls()
+    vals = [c23_val(i) for i in pre]          # caller-owned objects handed to the constructor
+    obj = cls(vals)
+    _state.setdefault("owned", []).extend(vals)
+    return obj                                 # pre == "keep" is handled by the caller
 
 
 NFORMS = 14
@@ -405,19 +615,29 @@ def _observe(kind, s, hold, keys):
 def c23_run(case):
     from hio.base.hier import Hold
     kind, keys, ops = case
+    web = kind.startswith("w")          # "wdurq" / "wdusq": the same history over WebDuror instead of the lmdb Duror
+    kind = kind[1:] if web else kind
     keys = [k.decode() for k in keys]
     vs = _vals()
-    s = _state.get("subery")
-    if s is None or not s.opened:
-        s = c23_open()
-    _drop(s.env, s.drqs.sdb)
-    _drop(s.env, s.dsqs.sdb)
+    if web:
+        c23_ser(vs[0])                  # make sure the value table exists (needs the lmdb subery once)
+        s = WebStore(FakeBackend())
+        raw = s.raw
+    else:
+        s = _state.get("subery")
+        if s is None or not s.opened:
+            s = c23_open()
+        _drop(s.env, s.drqs.sdb)
+        _drop(s.env, s.dsqs.sdb)
+        raw = lambda sub: raw_items(s.env, sub.sdb)      # noqa: E731
     # the sibling sub-db of the other kind holds values at the SAME keys: nothing a case does may touch them
     other = s.dsqs if kind == "durq" else s.drqs
     for k in keys:
         other.put(k, [_vals()[0], _vals()[1]])
-    sentinel = raw_items(s.env, other.sdb)
+    sentinel = raw(other)
     form0 = len(ops) + 3 * len(keys)
+    handed = {i: [] for i in range(len(keys))}      # per queue: the caller's own objects it has handed over so far
+    _state["nup"] = len(ops)
     hold = build_hold(s, keys, [_mk(kind) for _ in keys], form0)
     steps = []
     nre = 0
@@ -427,23 +647,37 @@ def c23_run(case):
             if name == "reopen":
                 nre += 1
                 old = {k: hold[k] for k in keys}
-                s.close()
-                if nre % 2:
-                    s = c23_open()               # a new Subery object on the same directory
+                if web:
+                    s.close(how=nre + len(ops))
+                    s = WebStore(s.backend, duror=(None if nre % 2 else s.db))     # a new / the same WebDuror object
+                    raw = s.raw
                 else:
-                    s.reopen(reuse=True)         # the SAME Subery object opened again
-                    _state["subery"] = s
-                    if not s.opened:
-                        raise core.Infra("Subery.reopen failed")
+                    s.close()
+                    if nre % 2:
+                        s = c23_open()               # a new Subery object on the same directory
+                    else:
+                        s.reopen(reuse=True)         # the SAME Subery object opened again
+                        _state["subery"] = s
+                        if not s.opened:
+                            raise core.Infra("Subery.reopen failed")
+                    raw = lambda sub, s=s: raw_items(s.env, sub.sdb)      # noqa: E731
                 pres = op[1] if len(op) > 1 else [None] * len(keys)
                 # "keep": the same queue object goes into the new Hold
-                objs = [old[k] if pre == "keep" else _mk(kind, pre) for k, pre in zip(keys, pres)]
+                objs = []
+                for qi, (k, pre) in enumerate(zip(keys, pres)):
+                    _state["owned"] = []
+                    objs.append(old[k] if pre == "keep" else _mk(kind, pre))
+                    handed[qi].extend(_state["owned"])
+                    if kind == "dusq":      # the caller goes on using the objects it preloaded the set with
+                        for v in _state["owned"]:
+                            _scribble(v)
                 hold = build_hold(s, keys, objs, form0 + nre)
                 res = True
             else:
                 q = hold[keys[op[1]]]
                 if name == "push":
                     arg = c23_val(op[2])
+                    handed[op[1]].append(arg)
                     res = q.push(arg)
                     if kind == "dusq":
                         _scribble(arg)
@@ -453,12 +687,21 @@ def c23_run(case):
                     res = q.pull(emptive=False)
                 elif name == "extend":
                     vals = [c23_val(i) for i in op[2]]
-                    res = q.extend(vals) if kind == "durq" else q.update(vals)
+                    handed[op[1]].extend(vals)
+                    if kind == "durq":
+                        res = q.extend(vals)
+                    else:                   # the documented `deep` flag, default and both explicit values
+                        nup = _state["nup"] = _state.get("nup", 0) + 1
+                        res = q.update(vals) if nup % 3 == 0 else q.update(vals, deep=(nup % 3 == 1))
                     if kind == "dusq":
                         for v in vals:
                             _scribble(v)
                 elif name == "sync":
                     res = q.sync(force=bool(op[2]))
+                elif name == "scribble":        # the caller mutates every object of its own that it ever handed to this queue
+                    for v in handed[op[1]]:
+                        _scribble(v)
+                    res = None
                 elif name == "clear":
                     res = q.clear()
                 elif name == "remove" and kind == "dusq":
@@ -478,8 +721,10 @@ def c23_run(case):
             res = classify(ex)
         steps.append((res, _observe(kind, s, hold, keys)))
     other = s.dsqs if kind == "durq" else s.drqs
-    if raw_items(s.env, other.sdb) != sentinel:
+    if raw(other) != sentinel:
         steps.append((("unexpected", "sibling-subdb-changed"), ()))
+    if web:
+        s.close(how=0)
     return tuple(steps)
 
 
